@@ -47,6 +47,21 @@ CLAIMS = {
             "length 0..=255 is recorded from the real code and validated by TLC.",
             "Trusted: TLC, Message.tla, Frame.tla. Injectivity on the real code follows from the per-message round trip.",
             "DESIGN.md section 5 C05", TECH_MGV),
+    "C06": ("model_checking",
+            "Page.tla models a page as its byte image with set/get/set-all and the C06 relations. TLC explores every byte image reachable for every "
+            "size of a small exhaustive box and checks the relations for every operation (in-bounds, just outside, far outside, set-all) from every "
+            "image; each model transition is replayed on a page from Page::new and on one over borrowed bytes, comparing result and the projection "
+            "(every pixel through get_pixel, id, dimensions, length, header, padding); random operation sequences on real and random sizes are "
+            "recorded and judged by TLC with the relations stated on observations.",
+            "Trusted: TLC. Exhaustive only inside the box (area <= 12); larger sizes are sampled. Unused column bits after set-all are unconstrained.",
+            "DESIGN.md section 5 C06", TECH_MGV),
+    "C07": ("model_checking",
+            "The layout formulae (bytes per column, data bytes, padded size, pixel index) are TLA+ definitions; TLC checks new-page shape, index "
+            "injectivity/range, bit order and from_bytes acceptance for every size of the box and the 11 real sizes; expected images are replayed into "
+            "the real Page; pages, single-pixel images and from_bytes verdicts recorded from the real code (all ids, every size 0..48 x 0..33 in "
+            "thorough, large sizes) are validated by TLC against the formulae.",
+            "Trusted: TLC, the transcription of the documented layout.",
+            "DESIGN.md section 5 C07", TECH_MGV),
     "C08": ("model_checking",
             "System.tla composes Controller.tla with Bus.tla. TLC explores a chaos phase (arbitrary traffic to the sign, bounded) followed at any point "
             "by configure / configure-if-needed and bounded sequences of send-pages, show, load-next and re-configure, one exchange per step, with "
@@ -76,6 +91,13 @@ CLAIMS = {
             "actually took place, as it does for random adversarial conversations. Being reference-free it does not alarm on protocol changes that keep C11.",
             "Trusted: TLC, the log-only definition of 'reply allowed at this point'.",
             "DESIGN.md section 5 C11", TECH_MGV),
+    "C19": ("model_checking",
+            "SignType.tla holds the documented table and the field relations; TLC checks the table's self-consistency, decode-back, the virtual sign's "
+            "derivation and the totality/acceptance rules of decoding over all (family, id) pairs and lengths 0..40. The real blocks, dimensions, "
+            "decode results and what a real VirtualSign configured with each block stores are recorded and judged by relations in TLC (not by "
+            "equality with the spec's copy of the table), with the supported (family, id) set built from the recorded blocks.",
+            "Trusted: TLC. A consistent change of a type is deliberately not an alarm.",
+            "DESIGN.md section 5 C19", TECH_MGV),
     "C12": ("model_checking",
             "VirtualSign.tla is a total step function (TLC evaluates every alphabet message in every reachable state of the bounded model, so the "
             "design has no crashing history); every one of those transitions is delivered to a real VirtualSign under catch_unwind; long random "
